@@ -37,6 +37,19 @@ def rvalue_operands(rv):
     return ops
 
 
+import re as _re
+
+# Callees whose *result value* (a reference / iterator / length into a slice) depends on the shape
+# and identity of the container argument, not on the values stored in it.
+SHAPE_FNS = _re.compile(
+    r"(ops::Index(Mut)?<.*>>::index(_mut)?$|slice::index::<impl .*ops::Index(Mut)?<I> for \[T\]>::index(_mut)?$"
+    r"|<impl \[T\]>::(len|is_empty|iter|iter_mut|as_ptr|first|first_mut|last|last_mut|get|get_mut|split_at|split_at_mut|chunks|chunks_mut|chunks_exact|chunks_exact_mut)$"
+    r"|Vec::<T, A>::(len|is_empty|as_slice|as_mut_slice)$"
+    r"|ops::Deref(Mut)?>::deref(_mut)?$|ops::Deref(Mut)?::deref(_mut)?$"
+    r"|IntoIterator>::into_iter$|iter::IntoIterator::into_iter$|IntoIterator for &'a (mut )?\[T\]>::into_iter$"
+    r"|<std::slice::(Iter|IterMut|ChunksExactMut|ChunksMut)<'a, T> as std::iter::Iterator>::next$)")
+
+
 def first_field(pl):
     """(first non-deref field name or None, place goes through a deref)"""
     deref = False
@@ -72,6 +85,7 @@ class Taint:
         self.is_source_place = is_source_place
         self.source = source
         self.cg = cg
+        self.why = {}
         self.cont = {}           # local -> remaining field path (reference to a container of the source)
         self.container_escapes = []
         self.T = set((a, None) for a in tainted_args)
@@ -88,12 +102,19 @@ class Taint:
         self._run()
 
     # ---- helpers on abstract locations
-    def _is_t(self, l, f):
+    def _is_t(self, l, f, shape_only=False):
         if (l, None) in self.T:
             return True
         if f is None:
+            if shape_only:
+                return any(x[0] == l and x[1] != "[]" for x in self.T)
             return any(x[0] == l for x in self.T)
-        return (l, f) in self.T
+        return (l, f) in self.T or (f != "[]" and False)
+
+    def is_slice_ref(self, l):
+        """local is a reference to a slice: its referent's shape cannot be changed through it"""
+        ty = self.b.local_ty(l)
+        return ty.startswith("&mut [") or ty.startswith("&[") or ty.startswith("&'") and "[" in ty.split(" ")[-1][:2]
 
     def _refine(self, tgt, f):
         return (tgt[0], f) if (tgt[1] is None and f is not None) else tgt
@@ -113,6 +134,12 @@ class Taint:
         b = self.b
         pts = {}
         self.pts = pts
+        # a reference parameter stands for its referent
+        for l in range(1, b.argc + 1):
+            ty = b.local_ty(l)
+            if ty.startswith("&") or ty.startswith("*"):
+                if not (b.kind == "Closure" and l == 1):
+                    pts[l] = {(l, None)}
         changed = True
 
         def add(dst, srcs):
@@ -122,8 +149,12 @@ class Taint:
             return len(s) != n
 
         rounds = 0
-        while changed and rounds < 30:
+        allow_fallback = False
+        SCALARS = ("f64", "f32", "usize", "isize", "bool", "()", "u8", "u16", "u32", "u64", "i8", "i16", "i32", "i64", "char", "!")
+        while (changed or not allow_fallback) and rounds < 60:
             rounds += 1
+            if not changed and not allow_fallback:
+                allow_fallback = True      # second phase: places of values that hold no known reference
             changed = False
             for bb, i, st in b.iter_stmts():
                 if st["k"] != "assign" or st["place"]["proj"]:
@@ -131,14 +162,22 @@ class Taint:
                 dst = st["place"]["local"]
                 rv = st["rv"]
                 k = rv["k"]
+                def known(pl):
+                    # a place reached through a reference local whose referents are not known yet
+                    # is resolved in the second phase only (avoids stale self-targets)
+                    if any(e["k"] == "deref" for e in pl["proj"]) and not pts.get(pl["local"]):
+                        is_param = 1 <= pl["local"] <= b.argc
+                        return is_param or allow_fallback
+                    return True
                 if k in ("ref", "rawptr"):
-                    changed |= add(dst, self._targets(rv["place"]))
+                    if known(rv["place"]):
+                        changed |= add(dst, self._targets(rv["place"]))
                 elif k == "copyforderef":
                     pl = rv["place"]
                     if not pl["proj"]:
                         if pts.get(pl["local"]):
                             changed |= add(dst, pts[pl["local"]])
-                    else:
+                    elif known(pl):
                         # a reference stored in a field (closure env `(*_1).name`): stands for itself
                         changed |= add(dst, self._targets(pl))
                 elif k in ("use", "cast"):
@@ -146,7 +185,13 @@ class Taint:
                         if not pl["proj"] and pts.get(pl["local"]):
                             changed |= add(dst, pts[pl["local"]])
                         elif pl["proj"] and (b.local_ty(dst).startswith("&") or b.local_ty(dst).startswith("*")):
-                            changed |= add(dst, self._targets(pl))
+                            has_deref = any(e["k"] == "deref" for e in pl["proj"])
+                            if not has_deref and pts.get(pl["local"]):
+                                # a reference taken out of a value that holds references
+                                # (e.g. the payload of `Some(&mut item)`): same referents
+                                changed |= add(dst, pts[pl["local"]])
+                            elif has_deref or (allow_fallback and not pts.get(dst)):
+                                changed |= add(dst, self._targets(pl))
                 elif k == "aggregate":
                     if rv["kind"]["k"] == "closure":
                         self.closures[dst] = (rv["kind"]["def"], rv["ops"], rv["kind"].get("captures") or [])
@@ -159,25 +204,41 @@ class Taint:
                     continue
                 dst = t["dest"]["local"]
                 dty = b.local_ty(dst)
-                if "&" not in dty and "*" not in dty:
+                if dty in SCALARS:
                     continue
+                c = t["callee"]
+                nm = callee_name(c) if c["k"] == "fndef" else ""
+                if (nm.endswith("Iterator>::next") or nm.endswith("Iterator::next") or nm.endswith("Iterator>::next_back")) and t["args"]:
+                    # items yielded by an iterator point into what the iterator points into, not into
+                    # the iterator value itself
+                    second = set()
+                    for pl in operand_places(t["args"][0]):
+                        for (l2, f2) in pts.get(pl["local"], ()):
+                            second |= pts.get(l2, set())
+                    if second:
+                        changed |= add(dst, second)
+                        continue
+                    if not allow_fallback or pts.get(dst):
+                        continue
                 for a in t["args"]:
                     for pl in operand_places(a):
                         if pts.get(pl["local"]):
                             changed |= add(dst, pts[pl["local"]])
 
     # ---- reads
-    def place_tainted(self, pl):
+    def place_tainted(self, pl, shape_only=False):
         f, deref = first_field(pl)
         l = pl["local"]
-        if self._is_t(l, f):
+        if self._is_t(l, f, shape_only=shape_only):
             return True
         for e in pl["proj"]:
             if e["k"] == "index" and self._is_t(e["local"], None):
                 return True
         if deref:
             for tg in self._targets(pl):
-                if self._is_t(*tg):
+                if self._is_t(tg[0], tg[1], shape_only=shape_only):
+                    return True
+                if not shape_only and tg[1] is None and (tg[0], "[]") in self.T:
                     return True
         if self.is_source_place is not None and pl["proj"]:
             if self.is_source_place(pl, None):
@@ -255,29 +316,56 @@ class Taint:
                         self.cont[d] = c[1]
                         changed = True
 
-    def operand_tainted(self, o):
+    def operand_tainted(self, o, shape_only=False):
+        if shape_only:
+            # the value of a reference / iterator operand itself (not what it points to)
+            out = False
+            for pl in operand_places(o):
+                l = pl["local"]
+                f, deref = first_field(pl)
+                if self._is_t(l, f, shape_only=True):
+                    out = True
+                if deref:
+                    for tg in self._targets(pl):
+                        if self._is_t(tg[0], tg[1], shape_only=True):
+                            out = True
+            return out
         return any(self.place_tainted(pl) for pl in operand_places(o))
 
     def rvalue_tainted(self, rv):
         k = rv["k"]
-        if k in ("ref", "rawptr", "copyforderef", "discriminant"):
+        if k in ("ref", "rawptr"):
+            # taking a reference to (part of) a slice does not read its contents
+            return self.place_tainted(rv["place"], shape_only=True)
+        if k in ("copyforderef", "discriminant"):
             return self.place_tainted(rv["place"])
         if k == "aggregate" and rv["kind"]["k"] == "closure":
             return False  # closures are analysed at their call sites
         return any(self.operand_tainted(o) for o in rvalue_operands(rv))
 
     # ---- writes
-    def taint_place(self, pl):
+    def _content(self, tg, through_deref):
+        """an element store / callee write through a `&mut [T]` taints the contents, not the shape"""
+        if through_deref and tg[1] is None and self.is_slice_ref(tg[0]):
+            return (tg[0], "[]")
+        return tg
+
+    def taint_place(self, pl, why=None):
         ch = False
+        deref = any(e["k"] == "deref" for e in pl["proj"])
         for tg in self._targets(pl):
+            tg = self._content(tg, deref)
             if tg not in self.T and (tg[0], None) not in self.T:
                 self.T.add(tg)
+                self.why[tg] = (len(self.why), why)
                 ch = True
         return ch
 
-    def _taint_loc(self, tg):
+    def _taint_loc(self, tg, why=None):
+        tg = self._content(tg, True)
         if tg not in self.T and (tg[0], None) not in self.T:
             self.T.add(tg)
+            self.why[tg] = (len(self.why), why)
             return True
         return False
 
@@ -355,7 +443,7 @@ class Taint:
             for bb, i, st in b.iter_stmts():
                 if st["k"] == "assign":
                     if self.rvalue_tainted(st["rv"]) or bb in ctrl:
-                        changed |= self.taint_place(st["place"])
+                        changed |= self.taint_place(st["place"], ("assign", bb, i, "ctrl" if bb in ctrl and not self.rvalue_tainted(st["rv"]) else "data"))
                 elif st["k"] == "setdiscr" and bb in ctrl:
                     changed |= self.taint_place(st["place"])
             for bb, t in b.calls():
@@ -367,10 +455,12 @@ class Taint:
                     if cl is not None:
                         at.append(False)
                         continue
-                    tt = self.operand_tainted(a)
+                    cn = callee_name(t["callee"]) if t["callee"]["k"] == "fndef" else ""
+                    shape = bool(SHAPE_FNS.search(cn))
+                    tt = self.operand_tainted(a, shape_only=shape)
                     if not tt:
                         for pl in operand_places(a):
-                            if not pl["proj"] and any(self._is_t(*x) for x in self.pts.get(pl["local"], ())):
+                            if not pl["proj"] and any(self._is_t(x[0], x[1], shape_only=shape) for x in self.pts.get(pl["local"], ())):
                                 tt = True
                     at.append(tt)
                 # arguments that are references to a container of the source
@@ -401,11 +491,11 @@ class Taint:
                         for pl in operand_places(ops[ci]):
                             tgs = self.pts.get(pl["local"]) if not pl["proj"] else self._targets(pl)
                             for tg in (tgs or {(pl["local"], None)}):
-                                changed |= self._taint_loc(tg)
+                                changed |= self._taint_loc(tg, ("closure-write", bb, ci))
                     if ret:
                         res_t = True
                 if res_t or bb in ctrl:
-                    changed |= self.taint_place(t["dest"])
+                    changed |= self.taint_place(t["dest"], ("call-result", bb, callee_name(t["callee"]) if t["callee"]["k"] == "fndef" else "?", [k for k, x in enumerate(at) if x], "ctrl" if bb in ctrl else ""))
                 for k, (a, ti) in enumerate(zip(t["args"], t.get("arg_tys") or [])):
                     if cl_args[k] is not None:
                         continue
